@@ -70,6 +70,11 @@ def budget(tier: str) -> int:
 
 def generate(rng, tier, n):
     out = []
+    import core
+    core.use_repo_sources()
+    import props.c10_build as B
+    for k in range(B.count()):
+        out.append(Case(f"(silent {k})", ("construction", B._S[k].__name__), "exhaustive"))
     while len(out) < n:
         q = G.gen_query(rng, quantifiers=False)
         ops = G.cond_ops(q["cond"])
@@ -79,17 +84,23 @@ def generate(rng, tier, n):
 
 
 def revive(case: Case) -> Case:
+    if case.line.startswith("(silent"):
+        return case
     if case.payload is None:
         case.payload = G.parse_query(case.line)
     return case
 
 
 def shrink(case: Case):
+    if case.payload is None:
+        return
     for q in G.shrink_query(case.payload):
         yield Case(G.sx_query(q), case.tags, "shrink", q)
 
 
 def nontrivial(case: Case, spec: str) -> bool:
+    if case.line.startswith("(silent"):
+        return True
     m = re.match(r"n=(\d+) ", spec)
     if not m or int(m.group(1)) < 2:
         return False
@@ -133,6 +144,9 @@ def _consume(q, k, which=0):
 
 
 def _one(case: Case) -> str:
+    if case.line.startswith("(silent"):
+        import props.c10_build as B
+        return B.run(int(case.line.split()[1].rstrip(")")))
     q = case.payload
     which = int(case.key()[:6], 16)   # which never-violated quantification constraint decorates this query
     try:
@@ -165,6 +179,8 @@ def _parse(obs: str):
 
 def compare(impl: str, other: str) -> bool:
     """impl refines the model: silent construction, prefix property, same number of results, pulls <= model"""
+    if other == "silent" or impl == "silent" or impl.startswith("touched:"):
+        return impl == other
     if other == "exc" or impl.startswith("exc:"):
         return other == "exc" and impl.startswith("exc:")
     if "silent=1" not in impl or "prefix=1" not in impl:
